@@ -22,6 +22,7 @@ Definition enc_cmd (c : cmd) : list Z :=
   | CStbm t b => csi [t; b] 114
   | CSgr l => csi l 109
   | CDsr n => csi [n] 110
+  | CHt => [9]
   end.
 Definition enc_cmds (cs : list cmd) : list Z := flat_map enc_cmd cs.
 
@@ -88,6 +89,7 @@ Definition dec_cmd (l : list Z) : option (cmd * list Z) :=
   | 15 :: n :: r => Some (CIl n, r) | 16 :: n :: r => Some (CDl n, r)
   | 17 :: a :: b :: r => Some (CStbm a b, r)
   | 19 :: n :: r => Some (CDsr n, r)
+  | 20 :: r => Some (CHt, r)
   | 18 :: r => match dec_list r with Some (l, r') => Some (CSgr l, r') | None => None end
   | _ => None
   end.
